@@ -93,8 +93,13 @@ class C11(common.Spec):
                         out.append(('raise',))
                     else:
                         _, dest, et, vt, ok = act
+                        # a vetoing filter: a function answering False / None, or a DataEdit chain
+                        # whose rejecting step is followed by further steps
+                        veto = [lambda d: False, lambda d: None,
+                                edzed.DataEdit.modify('source', lambda v: edzed.DataEdit.REJECT)
+                                .add(extra=1).delete('source')][(dest + len(out)) % 3]
                         ev = edzed.Event(blocks[dest], mk_etype(et),
-                                         efilter=(lambda d: True) if ok else (lambda d: False))
+                                         efilter=(lambda d: True) if ok else veto)
                         out.append(('send', ev, vt))
                 return out
             for blk, spec in zip(blocks, case['blocks']):
